@@ -209,14 +209,20 @@ def r_opsem(ctx, only=None):
                 continue
             ctx.unit("%s.%s" % (cname, op))
             unary = len(params_of(fn)) == 1
-            kinds = [None] if unary else ["Point", "Expression", "Function", "int", "float", "str", "complex", "self"]
+            kinds = [None] if unary else ["Point", "Expression", "Function", "int", "float", "str", "complex", "self", "leaf", "leaf-self"]
             for kind in kinds:
                 n_cases += 1
                 ops_ = operands()
                 me = ops_[cname]
                 arg = None
-                same_object = kind == "self"
-                if same_object:
+                same_object = kind in ("self", "leaf-self")
+                leaves = kind in ("leaf", "leaf-self")
+                if leaves:
+                    # leaves: objects whose decomposition is themselves with weight 1 (two different ones, or the same one twice: f + f)
+                    me = AObj(cname, {"L1": Rat(1)}, ops_[cname].flag, leaf=True)
+                    arg = me if same_object else AObj(cname, {"L2": Rat(1)}, ops_[cname + "2"].flag, leaf=True)
+                    kind = cname
+                elif same_object:
                     kind = cname          # the operand is the receiver itself:  x + x, x - x, x * x, e <= e
                     arg = me
                 elif kind is not None:
@@ -225,7 +231,7 @@ def r_opsem(ctx, only=None):
                     arg = AScalar(Rat(2), "int") if kind == "int" else arg
                 before_me = dict(me.dd)
                 before_arg = dict(arg.dd) if isinstance(arg, AObj) else None
-                key = "%s.%s(%s)" % (cname, op, ("itself" if same_object else kind) or "")
+                key = "%s.%s(%s)" % (cname, op, (("a leaf, itself" if leaves else "itself") if same_object else ("another leaf" if leaves else kind)) or "")
                 want = _expected(cname, op, me, kind, arg, c)
                 it = OpInterp(repo, cls.module)
                 try:
@@ -344,7 +350,54 @@ def _expected(cname, op, me, kind, arg, c):
     return None
 
 
+def r_constraint_ctor(ctx):
+    """A comparison builds `Constraint(left - right, sense)`: the constructor keeps exactly the expression and the sense it is given -- whatever the
+    expression looks like (a positive, a negative or no constant term) -- so that the constraint is the one written.  Unrolled by sa/miniint.py."""
+    from ..miniint import IndexInterp, SymObj, ProgramRaise
+    repo = ctx.repo
+    init = repo.method("Constraint", "__init__")
+    ctx.unit("Constraint.__init__ (unrolled)")
+    ps = params_of(init)
+    bad = None
+    n = 0
+    leaf = SymObj("Expression", label="leaf", _is_leaf=True)
+    for const in (3.0, -2.0, None):
+        for sense in ("inequality", "equality"):
+            dd = {leaf: 1.0}
+            if const is not None:
+                dd[1] = const
+            ex = SymObj("Expression", label="left - right", _is_leaf=False, decomposition_dict=dd)
+            me = SymObj("Constraint", label="self")
+            env = {ps[0]: me, ps[1]: ex, ps[2]: sense, "Constraint.counter": 5}
+            it = IndexInterp(env, check_asserts=True)
+            it.home = (repo, init._module, "Constraint")
+            label = "constant term %s, %s" % (const, sense)
+            try:
+                it.run(init.body)
+            except ProgramRaise as e:
+                bad = "%s: the constructor raises %s" % (label, e.exc)
+                break
+            except AnalysisError as e:
+                ctx.notes.append("R-CONSCTOR: Constraint.__init__ not interpretable (%s): %s; the structural clause of R-SENSE decides" % (label, e))
+                return None
+            n += 1
+            if me.attrs.get("expression") is not ex:
+                bad = "%s: the constraint keeps `%r`, not the expression it was built from: the comparison written by the user is not the one stored" % (
+                    label, me.attrs.get("expression"))
+                break
+            if me.attrs.get("equality_or_inequality") != sense:
+                bad = "%s: the constraint keeps the sense %r" % (label, me.attrs.get("equality_or_inequality"))
+                break
+        if bad:
+            break
+    ctx.ob("R-CONSCTOR", "Constraint.__init__::keeps the expression and the sense it is given (unrolled)", bad is None,
+           "for a positive, a negative and no constant term, for both senses" if bad is None else bad, loc(init, init))
+    ctx.count("constraint constructions unrolled", n)
+    return n
+
+
 def run(ctx):
+    r_constraint_ctor(ctx)
     wrappers.r_psdstore(ctx)    # the LMI constructor is an operation of the DSL too: it copies what it is given and never writes into the caller's array
     r_nomut(ctx)
     dictops.r_dictops(ctx)
